@@ -4,6 +4,8 @@ import (
 	"encoding/json"
 	"hash/fnv"
 	"sort"
+	"sync/atomic"
+	"time"
 
 	"verif/sim/internal/scen"
 )
@@ -21,6 +23,17 @@ type Stats struct {
 
 	distinct map[uint64]struct{}
 	scenHash uint64
+
+	// what is executing right now, for the watchdog (not serialised)
+	curFault *scen.Fault
+	curMode  string
+	progress atomic.Int64
+}
+
+// Doing tells the watchdog which concrete fault / reader mode is being run.
+func (s *Stats) Doing(f *scen.Fault, mode string) {
+	s.curFault, s.curMode = f, mode
+	s.progress.Store(time.Now().UnixNano())
 }
 
 func NewStats() *Stats {
